@@ -12,7 +12,7 @@ import warnings
 
 import numpy as np
 
-from ..kernel import chance, pick, wpick, adigest, sdigest
+from ..kernel import chance, pick, wpick, adigest, sdigest, scribble
 from ..refs.sphere import sep_deg, tan_deproject
 from .. import present
 
@@ -330,8 +330,13 @@ def execute(script, run, env):
     nofind_err = []
     undist_err = []
     bystanders = []
+    pending = []        # results of the previous operation: the caller edits them in place before the next one
     for i, op in enumerate(script["ops"]):
         run.step = i
+        if pending:
+            if scribble(pending):
+                run.fault("caller_edited_a_result_in_place")
+            del pending[:]
         c = op.get("c", 0)
         if prev_c is not None and c != prev_c and ncallers > 1:
             run.fault("interleaved_callers_on_one_object")
@@ -374,6 +379,8 @@ def execute(script, run, env):
                     run.fail("wcs.history", dict(feats, kind=kind),
                              "%s after %d earlier calls (last: %s) returns %r, a fresh object built from the same header returns %r"
                              % (what, H.ncalls - 1, H.last, _short(got), _short(ref)))
+                pending.append(ref)
+            pending.append(got)
             return got
 
         if k == "bystander":
